@@ -294,6 +294,56 @@ theorem never_hung_step (s : St) (a : Act) (hi : Inv s) (hlen : s.live.length < 
   | peerFailure id pending => cases pending <;> exact hh
   | peerSuccess id => exact hh
 
+/-! ## the counter only moves forward -/
+
+/-- **Only `_next_channel` (and the constructor) ever assign `_channel_counter`** (generated from the AST of
+    transport.py on this run): nothing "hands an id back" by moving the counter. -/
+theorem counter_written_only_by_next_channel :
+    ∀ w ∈ PV.Generated.C23.counter_writers, w = "__init__" ∨ w = "_next_channel" := by
+  decide
+
+private theorem step_ticks_mono (s : St) (a : Act) : s.ticks ≤ (step s a).ticks := by
+  cases a with
+  | openLocal =>
+    simp only [step]
+    cases nextChannel (isLive s) s.counter with
+    | none => exact Nat.le_refl _
+    | some r => simp only [put]; split <;> simp
+  | peerAlloc =>
+    simp only [step]
+    cases s.pending with
+    | some _ => exact Nat.le_refl _
+    | none =>
+      cases nextChannel (isLive s) s.counter with
+      | none => exact Nat.le_refl _
+      | some r => simp
+  | peerPut =>
+    simp only [step]
+    cases s.pending with
+    | none => exact Nat.le_refl _
+    | some r => simp only [put]; split <;> simp
+  | peerReject => exact Nat.le_refl _
+  | delete id => exact Nat.le_refl _
+  | peerFailure id pending => cases pending <;> exact Nat.le_refl _
+  | peerSuccess id => exact Nat.le_refl _
+
+/-- **The counter never moves backwards**: in every history — including refused local opens
+    (`peerFailure id true`) and refused peer opens (`peerReject`) — the number of counter advances only grows, and
+    the counter is that number mod 2^24.  This is what `pending_id_reserved` rests on: an id that
+    `_parse_channel_open` holds between allocation and registration can only be reached again by going all the way
+    round. -/
+theorem counter_never_moves_backwards (c : Nat) (hc : c < M) (h1 h2 : List Act) :
+    (run (init c) h1).ticks ≤ (run (init c) (h1 ++ h2)).ticks ∧
+    (run (init c) (h1 ++ h2)).counter = (run (init c) (h1 ++ h2)).ticks % M := by
+  refine ⟨?_, ((inv_run _ (h1 ++ h2) (inv_init c hc)).2.1).symm⟩
+  have : ∀ (as : List Act) (s : St), s.ticks ≤ (run s as).ticks := by
+    intro as
+    induction as with
+    | nil => intro s; exact Nat.le_refl _
+    | cons a as ih => intro s; exact Nat.le_trans (step_ticks_mono s a) (ih _)
+  have e : run (init c) (h1 ++ h2) = run (run (init c) h1) h2 := by simp [run, List.foldl_append]
+  rw [e]; exact this h2 _
+
 /-! ## open channels stay registered -/
 
 /-- every open Channel object is in the map under its id -/
